@@ -942,25 +942,32 @@ Theorem refuted_F08b :
   /\ In [67] (g_entered c) /\ terminal (state_of c [67]) = false.
 Proof. vm_compute. repeat split; auto. Qed.
 
-(* F08c: Alias: {$ref: Target}; Target: object *)
-Definition tops_F08c : list call := [(Call (Some [65;108;105;97;115]) true [(Call (Some [84;97;114;103;101;116]) true [(Call None true []); (Reg [84;97;114;103;101;116])])])].
+(* F08c (fixed): Alias: {$ref: Target}; Target: object — the call tree of the fixed implementation registers the
+   declared alias under its own name (regression witness, corpus/C08/F08c.json) *)
+Definition tops_F08c : list call := [(Call (Some [65;108;105;97;115]) true [(Call (Some [84;97;114;103;101;116]) true [(Call None true []); (Reg [84;97;114;103;101;116])]); (Reg [65;108;105;97;115])])].
 Definition declared_F08c : list str := [[65;108;105;97;115]; [84;97;114;103;101;116]].
 
-Theorem refuted_F08c :
+Example regress_F08c :
   let c := run_list (init default_max_depth) tops_F08c in
-  rest c /\ guard_F08b default_max_depth tops_F08c = true /\ guard_F08a default_max_depth tops_F08c = true
+  rest c /\ guard_F08b default_max_depth tops_F08c = true
   /\ forallb (fun n => terminal (state_of c n)) declared_F08c = true
-  /\ all_present declared_F08c c = false.
+  /\ all_present declared_F08c c = true.
 Proof. vm_compute. repeat split; auto. Qed.
 
-(* F08d: a schema keyed by the empty string *)
-Definition tops_F08d : list call := [(Call (Some []) true [(Call None true [])])].
+(* F08d (fixed in the loader: build_schemas rejects a schema keyed by the empty string, so the tracker never sees
+   it; corpus/C08/F08d.json now yields an empty trace).  The tracker itself still tests `is None` in check but
+   truthiness in enter/exit; this is why the theorems about names carry the hypothesis n <> []: *)
+Definition tops_empty_name : list call := [(Call (Some []) true [(Call None true [])])].
 
-Theorem refuted_F08d :
-  let c := run_list (init default_max_depth) tops_F08d in
-  rest c /\ guard_F08b default_max_depth tops_F08d = true /\ forallb names_truthy tops_F08d = false
+Example tracker_empty_name :
+  let c := run_list (init default_max_depth) tops_empty_name in
+  rest c /\ forallb names_truthy tops_empty_name = false
   /\ In [] (g_entered c) /\ state_of c [] = InProgress.
 Proof. vm_compute. repeat split; auto. Qed.
+
+Example regress_F08d :
+  rest (run_list (init default_max_depth) []) /\ g_entered (run_list (init default_max_depth) []) = [].
+Proof. vm_compute. repeat split. Qed.
 
 (* non-vacuity: a three-schema ring A -> B -(map)-> C -> A with C also referring to itself through oneOf:
    two structural cycles are cut by placeholders, no fall-through happens, five names are entered *)
